@@ -129,7 +129,71 @@ type MidD struct {
 
 func (c *MidD) Validate() error { return own(c) }
 
+// PlainMid has no Validate method although it contains sections that do: ValidateEmbedded must skip it (and go on).
+type PlainMid struct {
+	Note  string `mapstructure:"note"`
+	Inner LeafA  `mapstructure:"inner"`
+	Raw   LeafC  `mapstructure:"raw"`
+}
+
+// Stamp is a plain value structure (time.Time-like: no Validate, no nested section).
+type Stamp struct {
+	Sec  int `mapstructure:"sec"`
+	Nsec int `mapstructure:"nsec"`
+}
+
+// MidE: structure fields WITHOUT Validate before, between and after the validated sections.
+type MidE struct {
+	Meta   LeafC   `mapstructure:"meta"`
+	DB     LeafSrv `mapstructure:"db"`
+	At     Stamp   `mapstructure:"at"`
+	Cache  LeafA   `mapstructure:"cache"`
+	Extra  LeafC   `mapstructure:"extra_info"`
+	Strict bool    `mapstructure:"strict"`
+}
+
+func (c *MidE) Validate() error {
+	if err := config.ValidateEmbedded(c); err != nil {
+		return err
+	}
+	return own(c)
+}
+
+// MidF: own fields first, a section without Validate first and last, one validated section in the middle.
+type MidF struct {
+	Created Stamp   `mapstructure:"created"`
+	Queue   LeafSrv `mapstructure:"queue"`
+	Depth   int     `mapstructure:"depth"`
+	Updated Stamp   `mapstructure:"Updated"`
+}
+
+func (c *MidF) Validate() error {
+	if err := own(c); err != nil {
+		return err
+	}
+	return config.ValidateEmbedded(c)
+}
+
 // ---- depth 3 ----
+
+// TopC: at depth 3, sections without Validate (a leaf-only one and one that itself contains sections) precede, separate
+// and follow the validated ones.
+type TopC struct {
+	Born   Stamp    `mapstructure:"born"`
+	Plain  PlainMid `mapstructure:"plain_mid"`
+	First  MidE     `mapstructure:"first"`
+	Gap    LeafC    `mapstructure:"gap"`
+	Second MidF     `mapstructure:"second-part"`
+	ID     string   `mapstructure:"id"`
+	Last   Stamp    `mapstructure:"last"`
+}
+
+func (c *TopC) Validate() error {
+	if err := config.ValidateEmbedded(c); err != nil {
+		return err
+	}
+	return own(c)
+}
 
 // TopA ends with a structure (a ValidateEmbedded loop that stops one field early would miss it).
 type TopA struct {
@@ -173,6 +237,9 @@ var shapes = []shapeInfo{
 	{"MidB", reflect.TypeOf(MidB{})},
 	{"MidC", reflect.TypeOf(MidC{})},
 	{"MidD", reflect.TypeOf(MidD{})},
+	{"MidE", reflect.TypeOf(MidE{})},
+	{"MidF", reflect.TypeOf(MidF{})},
+	{"TopC", reflect.TypeOf(TopC{})},
 	{"TopA", reflect.TypeOf(TopA{})},
 	{"TopB", reflect.TypeOf(TopB{})},
 }
@@ -182,6 +249,7 @@ var modes = map[string]int{
 	"LeafA": vOwnOnly, "LeafB": vOwnOnly, "LeafC": vNone, "LeafSrv": vOwnOnly,
 	"MidA": vEmbFirst, "MidB": vOwnFirst, "MidC": vEmbFirst, "MidD": vOwnOnly,
 	"TopA": vEmbFirst, "TopB": vOwnFirst,
+	"PlainMid": vNone, "Stamp": vNone, "MidE": vEmbFirst, "MidF": vOwnFirst, "TopC": vEmbFirst,
 }
 
 func shapeByName(n string) (reflect.Type, bool) {
